@@ -240,9 +240,16 @@ def readCount (count : Nat) (toks : List Str) : Option (List Str) :=
 
 def lineAt (ls : List Str) (i : Nat) : Str := (ls.drop i).headD []
 
+/-- the mask line of `from_file` as the constructor's `mask=` argument: an empty line = no mask (old format) -/
+def maskOfLine (count : Nat) (mtoks : List Str) : Option PyVal :=
+  if mtoks = [] then some .none
+  else match readCount count mtoks with
+    | Option.none => Option.none
+    | some ts => (ts.mapM parseBit).map PyVal.marr
+
 /-- `Spectrum.from_file(fname, mask_corners, return_comments=True)` on the text of the file
     (hand-written normal form; the driver runs the TRANSLATED `Gen.FileIO.fromFile`, proved equal in Lemmas/FileReaders.lean) -/
-def fromFile (mc : Bool) (text : Str) : Option (Spec × List Str) :=
+def fromFileSpec (mc : Bool) (text : Str) : Option (Spec × List Str) :=
   let ls := linesOf (univNL text)
   let comments := (ls.takeWhile startsHash).map commentOf
   let rest := ls.dropWhile startsHash
@@ -253,13 +260,7 @@ def fromFile (mc : Bool) (text : Str) : Option (Spec × List Str) :=
     match readCount (prodL shape) (splitWs (lineAt rest 1)) with
     | Option.none => Option.none
     | some data =>
-      let mtoks := splitWs (lineAt rest 2)
-      let mask? : Option PyVal :=
-        if mtoks = [] then some .none
-        else match readCount (prodL shape) mtoks with
-          | Option.none => Option.none
-          | some ts => (ts.mapM parseBit).map PyVal.marr
-      match mask? with
+      match maskOfLine (prodL shape) (splitWs (lineAt rest 2)) with
       | Option.none => Option.none
       | some mask =>
         match construct (.arr shape data) mask (.bool mc) (.bool folded) (.bool true)
@@ -270,7 +271,7 @@ def fromFile (mc : Bool) (text : Str) : Option (Spec × List Str) :=
 /-- `Numerics.array_from_file(fname, return_comments=True)`: (shape, entries), comments.  `numpy.fromfile(fid, count, sep=' ')`
     reads on across line ends; fewer than `count` entries make the `reshape` raise.
     (hand-written normal form; the driver runs the TRANSLATED `Gen.FileIO.arrayFromFile`, proved equal in Lemmas/FileReaders.lean) -/
-def arrayFromFile (text : Str) : Option ((List Nat × List Str) × List Str) :=
+def arrayFromFileSpec (text : Str) : Option ((List Nat × List Str) × List Str) :=
   let ls := linesOf (univNL text)
   let comments := (ls.takeWhile startsHash).map commentOf
   let rest := ls.dropWhile startsHash
@@ -287,7 +288,7 @@ def arrayFromFile (text : Str) : Option ((List Nat × List Str) × List Str) :=
    `tools/gen_FileIO.py` translates the bodies of `Spectrum.from_file` and `Numerics.array_from_file` statement by statement
    into `Gen.FileIO.fromFile` / `Gen.FileIO.arrayFromFile` (Generated/FileIO.lean) in terms of the primitives below: a text-mode
    file object, `readline`, the two `while` loops, `numpy.fromstring` / `numpy.fromfile` / `reshape` on opaque tokens, the
-   conversion of constructor arguments.  `fromFile` / `arrayFromFile` above are the hand-written normal forms of the same
+   conversion of constructor arguments.  `fromFileSpec` / `arrayFromFileSpec` above are the hand-written normal forms of the same
    functions; Lemmas/FileReaders.lean proves the generated terms equal to them. -/
 
 /-- a text-mode file object: the lines not yet handed out (universal newlines already applied) -/
